@@ -214,15 +214,11 @@ class VF:
         for n, p in enumerate(path):
             if isinstance(p, tuple) and p[0] == 'idx':
                 cont = Place(root, path[:n])
-                if n + 1 < len(path):
-                    # write into a projection of an element: a[i].f = v
-                    cur = self.read(Place(root, path[:n + 1]))
-                    curt = self.to_term(cur)
-                    newv = with_set(curt, '.'.join(str(x) for x in path[n + 1:]), self.to_term(v))
-                else:
-                    newv = self.to_term(v)
-                base = self.read(cont)
-                self.write(cont, upd_term(self.to_term(base), p[1], newv))
+                base = self.to_term(self.read(cont))
+                rest = path[n + 1:]
+                elem = index_term(base, p[1])
+                newv = self.functional_update(elem, rest, self.to_term(v)) if rest else self.to_term(v)
+                self.write(cont, upd_term(base, p[1], newv))
                 return
         for k in [k for k in self.store if k[0] == root and len(k[1]) > len(path) and k[1][:len(path)] == path]:
             del self.store[k]
@@ -233,6 +229,17 @@ class VF:
             self.written.add((root, path))
             v = self.dummify(v)
         self.store[(root, path)] = v
+
+    def functional_update(self, base, path, v):
+        """value of `base` after writing v at sub-path `path` (indices and fields)"""
+        if not path:
+            return v
+        first, rest = path[0], path[1:]
+        if isinstance(first, tuple) and first[0] == 'idx':
+            return upd_term(base, first[1], self.functional_update(index_term(base, first[1]), rest, v))
+        if isinstance(first, int):
+            return T.app('with', base, T.app('set:%d' % first, self.functional_update(T.proj(base, first), rest, v)))
+        return with_set(base, str(first), self.functional_update(field_term(base, first), rest, v))
 
     DUMMY = T.sym('?')
 
@@ -601,6 +608,10 @@ class VF:
             p = self.ev_place(e)
             if p.root[0] == 'tmp':
                 return self.store.get((p.root, ()), None) if not p.path else self.read(p)
+            cur = self.store.get((p.root, p.path))
+            if isinstance(cur, Ref):
+                # (re)borrow of a variable that itself holds a reference / view: the referent is what matters
+                return cur
             return Ref(p, bool(n.get('mut')))
         return self.ev(e)
 
